@@ -29,6 +29,17 @@ CHECKS = {
         note="Epochs are stated as Julian dates in the spec; Persian arithmetic claimed from AP 475 (earlier years reported as divergences only).",
         technique="independent TLA+ transcription of published calendar rules + TLC trace validation of the implementation's walks",
     ),
+    "C03": dict(
+        category="model_checking",
+        text=("Elapsed.tla states Duration/Instant/Offset as integers of nanoseconds (T3 numerals + a BigInt library written in TLA+ "
+              "and self-checked by TLC); ElapsedImpl.tla is the floor-day normal-form machine model-checked on scaled constants "
+              "(normalisation, refinement, truncating accessors, raise-only-out-of-range); every public factory, operator, accessor "
+              "and conversion of the real types is recorded on boundary-biased operands and TLC recomputes each result exactly "
+              "(division by its defining predicate, floats to a stated error bound)."),
+        design_ref="DESIGN.md section 5 C03",
+        note="Operands are built with the trusted normal-form constructors; sampling is dense at sign/day/tick/range edges but not exhaustive; floats checked to 2^-50 relative to the larger intermediate.",
+        technique="TLA+ integer semantics (BigInt/T3) + scaled normal-form model in TLC + TLC trace validation of recorded calls",
+    ),
     "C19": dict(
         category="model_checking",
         text=("TLC explores every interleaving of the line-level FakeClock model (2 threads x 2 ops, 3 x 1, liveness, "
